@@ -308,6 +308,91 @@ func caseC08(r *rand.Rand, cw *CalcWriter, label string, maxT int) {
 		})
 		cw.emit(ev2)
 	}
+	if mismatch {
+		return
+	}
+	// several compared trees in one call, the records kept until the stream is closed and judged afterwards, one event
+	// per compared tree (what a caller that sorts or tabulates the records does): a record must not change once delivered
+	k := 2 + r.Intn(3)
+	cpus := 1 + r.Intn(2)
+	ref := present(r, sa, r.Intn(3))
+	pref := project(ref, ProjOpt{})
+	var cmps []*tree.Tree
+	var pcs []*PTree
+	for i := 0; i < k; i++ {
+		y := sb.clone()
+		for j := r.Intn(3); j > 0; j-- {
+			y.nni(r)
+		}
+		if r.Intn(3) == 0 {
+			y.contract(r, 0.3)
+		}
+		c := present(r, y, r.Intn(3))
+		cmps = append(cmps, c)
+		pcs = append(pcs, project(c, ProjOpt{}))
+	}
+	weighted := r.Intn(2) == 0
+	evs := make([]*CEvent, k)
+	for i := range evs {
+		kind := "Compare"
+		if weighted {
+			kind = "CompareWeighted"
+		}
+		evs[i] = &CEvent{Kind: kind, Prop: "C08", Case: label, Trees: []*PTree{pref, pcs[i]},
+			Args: map[string]interface{}{"tips": tips, "identical": false, "rel": "multi", "swap": false, "history": "", "of": k, "cpus": cpus, "idx": i}}
+	}
+	evs[0].guard(calcTimeout, func() error {
+		nrec := make([]int, k)
+		if weighted {
+			ch, err := tree.CompareWeighted(ref, feed(cmps), tips, false, cpus)
+			if err != nil {
+				return err
+			}
+			var recs []tree.WeightedBipartitionStats
+			for st := range ch {
+				recs = append(recs, st)
+			}
+			for _, st := range recs {
+				if st.Id < 0 || st.Id >= k {
+					return fmt.Errorf("record with identifier %d", st.Id)
+				}
+				nrec[st.Id]++
+				evs[st.Id].Res = map[string]interface{}{"id": 0, "ref": i64s(st.Tree1, toUnitsSigned), "comp": i64s(st.Tree2, toUnitsSigned),
+					"common": i64s(st.Common, toUnitsSigned), "same": st.Sametree, "err": st.Err != nil, "n": nrec[st.Id]}
+			}
+		} else {
+			ch, err := tree.Compare(ref, feed(cmps), tips, false, cpus)
+			if err != nil {
+				return err
+			}
+			var recs []tree.BipartitionStats
+			for st := range ch {
+				recs = append(recs, st)
+			}
+			for _, st := range recs {
+				if st.Id < 0 || st.Id >= k {
+					return fmt.Errorf("record with identifier %d", st.Id)
+				}
+				nrec[st.Id]++
+				evs[st.Id].Res = map[string]interface{}{"id": 0, "tree1": st.Tree1, "tree2": st.Tree2, "common": st.Common,
+					"same": st.Sametree, "err": st.Err != nil, "n": nrec[st.Id]}
+			}
+		}
+		return nil
+	})
+	for i := 1; i < k; i++ {
+		evs[i].Ok, evs[i].Err, evs[i].Panic, evs[i].Hang = evs[0].Ok, evs[0].Err, evs[0].Panic, evs[0].Hang
+	}
+	for i := range evs {
+		if evs[i].Ok && evs[i].Res == nil {
+			evs[i].Res = map[string]interface{}{"id": 0, "tree1": -1, "tree2": -1, "common": -1, "ref": []int64{}, "comp": []int64{}, "common_w": 0,
+				"same": false, "err": false, "n": 0} // no record for this tree: CompareOneRecordPerTree
+			if weighted {
+				evs[i].Res["common"] = []int64{}
+			}
+		}
+		cw.emit(evs[i])
+	}
 }
 
 /* ------------------------------------------------------------------ C09 */
